@@ -38,3 +38,212 @@ pub fn negotiate_idle(has_x: bool, x: u16, has_y: bool, y: u16) -> u32 {
         _ => panic!("negotiated idle timeout disagrees with RFC 9000 10.1"),
     }
 }
+
+// ---------------------------------------------------------------------------------------------
+// Native-only support for replaying E2 counterexamples on a real `Connection` object.  A
+// `Connection` is built through `Connection::new` with a null crypto session (no handshake is
+// performed); the replay bodies then set the fields the counterexample mentions and call the
+// function under test directly.  Never reachable from a Kani harness.
+
+pub mod nullcrypto {
+    use crate::crypto::{self, CryptoError, HeaderKey, KeyPair, Keys, PacketKey};
+    use crate::transport_parameters::TransportParameters;
+    use crate::{ConnectionId, Side, TransportError};
+    use bytes::BytesMut;
+    use std::any::Any;
+
+    pub struct NullHeaderKey;
+    impl HeaderKey for NullHeaderKey {
+        fn decrypt(&self, _: usize, _: &mut [u8]) {}
+        fn encrypt(&self, _: usize, _: &mut [u8]) {}
+        fn sample_size(&self) -> usize {
+            0
+        }
+    }
+
+    pub struct NullPacketKey;
+    impl PacketKey for NullPacketKey {
+        fn encrypt(&self, _: u64, _: &mut [u8], _: usize) {}
+        fn decrypt(&self, _: u64, _: &[u8], _: &mut BytesMut) -> Result<(), CryptoError> {
+            Err(CryptoError)
+        }
+        fn tag_len(&self) -> usize {
+            0
+        }
+        fn confidentiality_limit(&self) -> u64 {
+            u64::MAX
+        }
+        fn integrity_limit(&self) -> u64 {
+            u64::MAX
+        }
+    }
+
+    pub fn keys() -> Keys {
+        Keys {
+            header: KeyPair { local: Box::new(NullHeaderKey), remote: Box::new(NullHeaderKey) },
+            packet: KeyPair { local: Box::new(NullPacketKey), remote: Box::new(NullPacketKey) },
+        }
+    }
+
+    pub struct NullSession;
+    impl crypto::Session for NullSession {
+        fn initial_keys(&self, _: ConnectionId, _: Side) -> Keys {
+            keys()
+        }
+        fn handshake_data(&self) -> Option<Box<dyn Any>> {
+            None
+        }
+        fn peer_identity(&self) -> Option<Box<dyn Any>> {
+            None
+        }
+        fn early_crypto(&self) -> Option<(Box<dyn HeaderKey>, Box<dyn PacketKey>)> {
+            None
+        }
+        fn early_data_accepted(&self) -> Option<bool> {
+            None
+        }
+        fn is_handshaking(&self) -> bool {
+            true
+        }
+        fn read_handshake(&mut self, _: &[u8]) -> Result<bool, TransportError> {
+            Ok(false)
+        }
+        fn transport_parameters(&self) -> Result<Option<TransportParameters>, TransportError> {
+            Ok(None)
+        }
+        fn write_handshake(&mut self, _: &mut Vec<u8>) -> Option<Keys> {
+            None
+        }
+        fn next_1rtt_keys(&mut self) -> Option<KeyPair<Box<dyn PacketKey>>> {
+            None
+        }
+        fn is_valid_retry(&self, _: ConnectionId, _: &[u8], _: &[u8]) -> bool {
+            false
+        }
+        fn export_keying_material(&self, _: &mut [u8], _: &[u8], _: &[u8]) -> Result<(), crypto::ExportKeyingMaterialError> {
+            Err(crypto::ExportKeyingMaterialError)
+        }
+    }
+
+    pub struct NullHmac;
+    impl crypto::HmacKey for NullHmac {
+        fn sign(&self, _: &[u8], out: &mut [u8]) {
+            out.fill(0x5a);
+        }
+        fn signature_len(&self) -> usize {
+            32
+        }
+        fn verify(&self, _: &[u8], _: &[u8]) -> Result<(), CryptoError> {
+            Ok(())
+        }
+    }
+
+    pub struct NullServerCrypto;
+    impl crypto::ServerConfig for NullServerCrypto {
+        fn initial_keys(&self, _: u32, _: ConnectionId) -> Result<Keys, crypto::UnsupportedVersion> {
+            Ok(keys())
+        }
+        fn retry_tag(&self, _: u32, _: ConnectionId, _: &[u8]) -> [u8; 16] {
+            [0; 16]
+        }
+        fn start_session(self: std::sync::Arc<Self>, _: u32, _: &TransportParameters) -> Box<dyn crypto::Session> {
+            Box::new(NullSession)
+        }
+    }
+
+    pub struct NullTokenKey;
+    impl crypto::HandshakeTokenKey for NullTokenKey {
+        fn aead_from_hkdf(&self, _: &[u8]) -> Box<dyn crypto::AeadKey> {
+            unimplemented!()
+        }
+    }
+}
+
+pub fn addr(last: u8, port: u16) -> SocketAddr {
+    SocketAddr::new(IpAddr::V4(std::net::Ipv4Addr::new(10, 0, 0, last)), port)
+}
+
+/// A real `Connection` (Handshake state, null crypto) whose established remote is 10.0.0.1:4433.
+pub fn mk_conn(server: bool, migration: bool) -> Connection {
+    let now = crate::verif::mk_instant(50, 0).unwrap();
+    let ep_cfg = Arc::new(EndpointConfig::new(Arc::new(nullcrypto::NullHmac)));
+    let side_args = if server {
+        let mut sc = ServerConfig::new(Arc::new(nullcrypto::NullServerCrypto), Arc::new(nullcrypto::NullTokenKey));
+        sc.migration = migration;
+        SideArgs::Server { server_config: Arc::new(sc), pref_addr_cid: None, path_validated: true }
+    } else {
+        SideArgs::Client { token_store: Arc::new(crate::NoneTokenStore), server_name: "localhost".into() }
+    };
+    let cid_gen = crate::RandomConnectionIdGenerator::new(8);
+    Connection::new(
+        ep_cfg,
+        Arc::new(TransportConfig::default()),
+        ConnectionId::new(&[1; 8]),
+        ConnectionId::new(&[2; 8]),
+        ConnectionId::new(&[3; 8]),
+        addr(1, 4433),
+        None,
+        Box::new(nullcrypto::NullSession),
+        &cid_gen,
+        now,
+        1,
+        true,
+        [9; 32],
+        side_args,
+    )
+}
+
+/// Native replay body for the E2 query `e2_handle_event_remote_check` (C15): a datagram arriving
+/// from an address other than the established one is ignored - nothing is credited or counted -
+/// unless this is a server whose configuration permits migration.
+pub fn handle_event_remote_check_native(server: bool, migration: bool, same_remote: bool) -> u32 {
+    let mut conn = mk_conn(server, migration);
+    let now = crate::verif::mk_instant(51, 0).unwrap();
+    // a short-header datagram for our 8-byte CID
+    let mut bytes = BytesMut::new();
+    bytes.extend_from_slice(&[0x40, 2, 2, 2, 2, 2, 2, 2, 2, 0, 0, 0, 0, 0, 0, 0, 0, 0, 0, 0, 0, 0, 0, 0, 0, 0, 0, 0, 0, 0]);
+    let len = bytes.len() as u64;
+    let (first_decode, remaining) = PartialDecode::new(bytes, &FixedLengthConnectionIdParser::new(8), &[1], true).ok().expect("decodes");
+    let remote = if same_remote { addr(1, 4433) } else { addr(7, 999) };
+    let (recvd0, rx0) = (conn.path.total_recvd, conn.stats.udp_rx.datagrams);
+    conn.handle_event(ConnectionEvent(ConnectionEventInner::Datagram(DatagramConnectionEvent { now, remote, ecn: None, first_decode, remaining })));
+    let may_process = same_remote || (server && migration);
+    if may_process {
+        assert!(conn.stats.udp_rx.datagrams == rx0 + 1 && conn.path.total_recvd == recvd0 + len);
+        1
+    } else {
+        assert!(conn.stats.udp_rx.datagrams == rx0, "datagram from a foreign address was processed");
+        assert!(conn.path.total_recvd == recvd0, "datagram from a foreign address was credited");
+        2
+    }
+}
+
+/// Native replay body for the E2 query `e2_first_packet_credit` (C07): after the server has
+/// handled the first datagram of a connection - an Initial packet of `a + b` bytes followed by
+/// `c` coalesced bytes - the anti-amplification credit of the path is exactly the datagram size.
+pub fn first_packet_credit_native(a: u8, b: u8, c: u8) -> u32 {
+    let mut conn = mk_conn(true, true);
+    conn.path.validated = false;
+    let now = crate::verif::mk_instant(51, 0).unwrap();
+    let header_data = Bytes::from(vec![0xc0u8; a as usize + 1]);
+    let mut payload = BytesMut::new();
+    payload.resize(b as usize + 1, 0); // PADDING frames only
+    let packet = InitialPacket {
+        header: InitialHeader { dst_cid: ConnectionId::new(&[2; 8]), src_cid: ConnectionId::new(&[3; 8]), token: Bytes::new(), number: PacketNumber::U8(0), version: 1 },
+        header_data,
+        payload,
+    };
+    let remaining = if c > 0 {
+        let mut r = BytesMut::new();
+        r.resize(c as usize, 0);
+        Some(r)
+    } else {
+        None
+    };
+    let _ = conn.handle_first_packet(now, addr(1, 4433), None, 0, packet, remaining);
+    let want = a as u64 + 1 + b as u64 + 1 + c as u64;
+    assert!(conn.path.total_recvd == want, "first datagram credited {} bytes instead of {}", conn.path.total_recvd, want);
+    // and therefore at most three times that may be sent before validation
+    assert!(conn.path.anti_amplification_blocked(3 * want + 1 - conn.path.total_sent.min(3 * want)));
+    1
+}
